@@ -79,7 +79,7 @@ def runC15 (line : String) : String :=
       match fault with
       | none => "bad-case"
       | some fault =>
-        if color ≥ 12 ∨ pitch > 4096 ∨ w > 4096 ∨ h > 4096 ∨ !optsOk then "bad-case" else
+        if color ≥ 12 ∨ pitch > 4096 ∨ w > 16384 ∨ h > 16384 ∨ !optsOk then "bad-case" else
         let lp : Loop := if pitch = 0 then .contig 512 else .rows 512
         let direct := let o := encode row lp w h fault; s!"{o.res.name} {o.bytes}"
         if path == "d" then direct
